@@ -1,8 +1,558 @@
-//! C08 — correspondence driver (stub: not built yet).
+//! C08 — Cholesky, LDLᵀ and QR.  See lean/Driver/C08.lean for the protocol.
+//!
+//! Every case is one self-contained `@` line:
+//!
+//!   @ <chol|ldlt|qr> <fp|rat> <rows> <cols> <entries row-major> names=<n0>,<n1> via=<entry point>
+//!   @ <chol|ldlt|qr> f64 <rows> <cols> <kind> <seed>          (implementation-vs-spec oracle only)
+//!
+//! Answers: `none`, `panic(<kind>)`, or `some <shape facts> <identity checks> ## <factor entries>`.
+//! The part before `##` is what the property speaks about (presence, shapes and names, the
+//! triangular structure and the defining identities — computed here from the *implementation's*
+//! factors in exact arithmetic); the part after it are the factor entries themselves, compared
+//! with the Lean model's (evaluated at the same `Fp`/`Rat` points).  `f64` lines never reach the
+//! model's arithmetic: the model answers what the specification demands and the harness checks the
+//! float result against the defining identities with a tolerance.
 
+use crate::exact::{Fp, Rat, P};
 use crate::util::*;
+use easy_ml::linear_algebra;
+use easy_ml::matrices::Matrix;
+use easy_ml::numeric::extra::{Real, RealRef, Sqrt};
+use easy_ml::numeric::{Numeric, NumericRef};
+use easy_ml::tensors::views::{TensorRef, TensorView};
+use easy_ml::tensors::Tensor;
+use std::fmt::Display;
 
-pub fn gen(_g: &mut Gen) {}
+// ---------------------------------------------------------------------------------------------
+// element plumbing
+// ---------------------------------------------------------------------------------------------
+
+pub trait ParseElem: Sized {
+    fn parse_elem(s: &str) -> Self;
+}
+impl ParseElem for Fp {
+    fn parse_elem(s: &str) -> Fp {
+        Fp::new(s.parse::<u64>().expect("fp"))
+    }
+}
+impl ParseElem for Rat {
+    fn parse_elem(s: &str) -> Rat {
+        match s.split_once('/') {
+            Some((n, d)) => Rat::new(n.parse().expect("rat num"), d.parse().expect("rat den")),
+            None => Rat::new(s.parse().expect("rat int"), 1),
+        }
+    }
+}
+
+pub fn parse_elems<T: ParseElem>(s: &str) -> Vec<T> {
+    split_comma(s).iter().map(|t| T::parse_elem(t)).collect()
+}
+
+pub fn show_elems<T: Display>(v: &[T]) -> String {
+    if v.is_empty() {
+        "-".to_string()
+    } else {
+        v.iter().map(|x| x.to_string()).collect::<Vec<_>>().join(",")
+    }
+}
+
+fn ok(b: bool) -> &'static str {
+    if b { "ok" } else { "bad" }
+}
+
+/// A factor as the harness sees it: shape (with the names it carries or, for `Matrix`, the names
+/// of the operation line) and row-major entries.
+pub struct Grid<T> {
+    pub shape: [(&'static str, usize); 2],
+    pub data: Vec<T>,
+}
+
+impl<T: Clone> Grid<T> {
+    fn at(&self, i: usize, j: usize) -> T {
+        self.data[i * self.shape[1].1 + j].clone()
+    }
+    pub fn of_tensor(t: &Tensor<T, 2>) -> Grid<T> {
+        Grid { shape: t.shape(), data: t.iter().collect() }
+    }
+    pub fn of_matrix(m: &Matrix<T>, names: [&'static str; 2]) -> Grid<T> {
+        let (r, c) = m.size();
+        Grid { shape: [(names[0], r), (names[1], c)], data: m.row_major_iter().collect() }
+    }
+}
+
+/// The input in the form the chosen entry point wants it.
+pub enum Input<T> {
+    Matrix(Matrix<T>),
+    Tensor(Tensor<T, 2>),
+    /// the transposed data with swapped lengths; presented through `transpose_view`
+    Transposed(Tensor<T, 2>),
+    /// embedded in a larger tensor at offset (1, 2); presented through `range`
+    Embedded(Tensor<T, 2>, usize, usize),
+}
+
+pub fn build_input<T: Clone>(
+    via: &str,
+    rows: usize,
+    cols: usize,
+    names: [&'static str; 2],
+    a: &[T],
+    filler: T,
+) -> Input<T> {
+    match via {
+        "matrix" => Input::Matrix(Matrix::from_flat_row_major((rows, cols), a.to_vec())),
+        "view" => {
+            let mut t = Vec::with_capacity(a.len());
+            for j in 0..cols {
+                for i in 0..rows {
+                    t.push(a[i * cols + j].clone());
+                }
+            }
+            Input::Transposed(Tensor::from([(names[0], cols), (names[1], rows)], t))
+        }
+        "range" => {
+            let (br, bc) = (rows + 2, cols + 3);
+            let mut t = vec![filler; br * bc];
+            for i in 0..rows {
+                for j in 0..cols {
+                    t[(i + 1) * bc + (j + 2)] = a[i * cols + j].clone();
+                }
+            }
+            Input::Embedded(Tensor::from([(names[0], br), (names[1], bc)], t), rows, cols)
+        }
+        _ => Input::Tensor(Tensor::from([(names[0], rows), (names[1], cols)], a.to_vec())),
+    }
+}
+
+/// Applies `$f` (a generic function over `TensorView`-convertible inputs) / `$fm` (the `Matrix`
+/// entry point) to the input in the requested ownership / view form.
+macro_rules! dispatch {
+    ($input:expr, $via:expr, $names:expr, |$m:ident| $on_matrix:expr, |$t:ident| $on_tensor:expr) => {
+        match $input {
+            Input::Matrix($m) => $on_matrix,
+            Input::Tensor(tensor) => match $via {
+                "owned" => {
+                    let $t = tensor;
+                    $on_tensor
+                }
+                "tensor_view" => {
+                    let $t = tensor.view();
+                    $on_tensor
+                }
+                _ => {
+                    let $t = &tensor;
+                    $on_tensor
+                }
+            },
+            Input::Transposed(tensor) => {
+                let $t = tensor.transpose_view([$names[1], $names[0]]);
+                $on_tensor
+            }
+            Input::Embedded(tensor, rows, cols) => {
+                let $t = tensor
+                    .range([($names[0], 1..(rows + 1)), ($names[1], 2..(cols + 2))])
+                    .expect("range");
+                $on_tensor
+            }
+        }
+    };
+}
+
+// ---------------------------------------------------------------------------------------------
+// `Rat` as a `Real` element type: only `sqrt` is exact (on perfect squares).  The other real
+// functions cannot be exact on rationals; reaching one is reported as a panic ("Rat
+// transcendental"), which never equals a model answer.  Used by C17 for covariances that must be
+// rejected by the Cholesky step before any of these functions is needed.
+// ---------------------------------------------------------------------------------------------
+
+macro_rules! rat_unreachable_unary {
+    ($Trait:ident, $method:ident) => {
+        impl easy_ml::numeric::extra::$Trait for Rat {
+            type Output = Rat;
+            fn $method(self) -> Rat {
+                panic!("Rat transcendental {}", stringify!($method))
+            }
+        }
+        impl<'a> easy_ml::numeric::extra::$Trait for &'a Rat {
+            type Output = Rat;
+            fn $method(self) -> Rat {
+                panic!("Rat transcendental {}", stringify!($method))
+            }
+        }
+    };
+}
+rat_unreachable_unary!(Exp, exp);
+rat_unreachable_unary!(Ln, ln);
+rat_unreachable_unary!(Sin, sin);
+rat_unreachable_unary!(Cos, cos);
+
+macro_rules! rat_unreachable_pow {
+    ($L:ty, $R:ty) => {
+        impl<'a, 'b> easy_ml::numeric::extra::Pow<$R> for $L {
+            type Output = Rat;
+            fn pow(self, _rhs: $R) -> Rat {
+                panic!("Rat transcendental pow")
+            }
+        }
+    };
+}
+rat_unreachable_pow!(Rat, Rat);
+rat_unreachable_pow!(Rat, &'b Rat);
+rat_unreachable_pow!(&'a Rat, Rat);
+rat_unreachable_pow!(&'a Rat, &'b Rat);
+
+impl easy_ml::numeric::extra::Pi for Rat {
+    fn pi() -> Rat {
+        panic!("Rat transcendental pi")
+    }
+}
+
+// ---------------------------------------------------------------------------------------------
+// exact checks of the defining identities (on the implementation's factors)
+// ---------------------------------------------------------------------------------------------
+
+fn is_lower<T: Numeric>(l: &Grid<T>) -> bool {
+    let n = l.shape[0].1;
+    (0..n).all(|i| ((i + 1)..l.shape[1].1).all(|j| l.at(i, j) == T::zero()))
+}
+
+fn is_upper<T: Numeric>(l: &Grid<T>) -> bool {
+    (0..l.shape[0].1).all(|i| (0..l.shape[1].1.min(i)).all(|j| l.at(i, j) == T::zero()))
+}
+
+/// (L·Lᵀ)[i,j] = A[i,j] on the lower triangle (`strict`: below the diagonal only); for a symmetric
+/// `A` the full lower triangle is the whole identity `L·Lᵀ = A`.
+fn chol_identity<T: Numeric>(l: &Grid<T>, a: &[T], strict: bool) -> bool {
+    let n = l.shape[0].1;
+    for i in 0..n {
+        for j in 0..=i {
+            if strict && i == j {
+                continue;
+            }
+            let mut s = T::zero();
+            for k in 0..n {
+                s = s + l.at(i, k) * l.at(j, k);
+            }
+            if s != a[i * n + j] {
+                return false;
+            }
+        }
+    }
+    true
+}
+
+fn ldlt_identity<T: Numeric>(l: &Grid<T>, d: &Grid<T>, a: &[T]) -> bool {
+    let n = l.shape[0].1;
+    for i in 0..n {
+        for j in 0..=i {
+            let mut s = T::zero();
+            for k in 0..n {
+                s = s + l.at(i, k) * d.at(k, k) * l.at(j, k);
+            }
+            if s != a[i * n + j] {
+                return false;
+            }
+        }
+    }
+    true
+}
+
+fn is_unit_lower<T: Numeric>(l: &Grid<T>) -> bool {
+    is_lower(l) && (0..l.shape[0].1).all(|i| l.at(i, i) == T::one())
+}
+
+fn is_diagonal<T: Numeric>(d: &Grid<T>) -> bool {
+    is_lower(d) && is_upper(d)
+}
+
+// ---------------------------------------------------------------------------------------------
+// running the real code
+// ---------------------------------------------------------------------------------------------
+
+fn run_chol<T>(rows: usize, cols: usize, a: Vec<T>, names: [&'static str; 2], via: &str, exact_sqrt: bool) -> String
+where
+    T: Numeric + Sqrt<Output = T> + Display,
+    for<'a> &'a T: NumericRef<T>,
+{
+    let input = build_input(via, rows, cols, names, &a, T::one() + T::one());
+    let r = catch(|| {
+        dispatch!(input, via, names,
+            |m| linear_algebra::cholesky_decomposition::<T>(&m).map(|l| Grid::of_matrix(&l, names)),
+            |t| linear_algebra::cholesky_decomposition_tensor::<T, _, _>(t).map(|l| Grid::of_tensor(&l)))
+    });
+    match r {
+        Err(k) => panic_str(k),
+        Ok(None) => "none".to_string(),
+        Ok(Some(l)) => {
+            let facts = if exact_sqrt {
+                let pos = (0..rows).all(|i| l.at(i, i) > T::zero());
+                format!("lower={} posdiag={} ident={}", ok(is_lower(&l)), ok(pos), ok(chol_identity(&l, &a, false)))
+            } else {
+                format!("lower={} offdiag={}", ok(is_lower(&l)), ok(chol_identity(&l, &a, true)))
+            };
+            format!("some shape={} {} ## L={}", show_shape(&l.shape), facts, show_elems(&l.data))
+        }
+    }
+}
+
+fn run_ldlt<T>(rows: usize, cols: usize, a: Vec<T>, names: [&'static str; 2], via: &str) -> String
+where
+    T: Numeric + Display,
+    for<'a> &'a T: NumericRef<T>,
+{
+    let input = build_input(via, rows, cols, names, &a, T::one() + T::one());
+    let r = catch(|| {
+        dispatch!(input, via, names,
+            |m| linear_algebra::ldlt_decomposition::<T>(&m)
+                .map(|f| (Grid::of_matrix(&f.l, names), Grid::of_matrix(&f.d, names))),
+            |t| linear_algebra::ldlt_decomposition_tensor::<T, _, _>(t)
+                .map(|f| (Grid::of_tensor(&f.l), Grid::of_tensor(&f.d))))
+    });
+    match r {
+        Err(k) => panic_str(k),
+        Ok(None) => "none".to_string(),
+        Ok(Some((l, d))) => format!(
+            "some lshape={} dshape={} unitlower={} diag={} ident={} ## L={} D={}",
+            show_shape(&l.shape),
+            show_shape(&d.shape),
+            ok(is_unit_lower(&l)),
+            ok(is_diagonal(&d)),
+            ok(ldlt_identity(&l, &d, &a)),
+            show_elems(&l.data),
+            show_elems(&d.data)
+        ),
+    }
+}
+
+fn qr_factors<T>(rows: usize, cols: usize, a: &[T], names: [&'static str; 2], via: &str, filler: T)
+    -> Result<Option<(Grid<T>, Grid<T>)>, PanicKind>
+where
+    T: Real,
+    for<'a> &'a T: RealRef<T>,
+{
+    let input = build_input(via, rows, cols, names, a, filler);
+    catch(|| {
+        dispatch!(input, via, names,
+            |m| linear_algebra::qr_decomposition::<T>(&m)
+                .map(|f| (Grid::of_matrix(&f.q, names), Grid::of_matrix(&f.r, names))),
+            |t| linear_algebra::qr_decomposition_tensor::<T, _, _>(t)
+                .map(|f| (Grid::of_tensor(&f.q), Grid::of_tensor(&f.r))))
+    })
+}
+
+fn run_qr_fp(rows: usize, cols: usize, a: Vec<Fp>, names: [&'static str; 2], via: &str) -> String {
+    match qr_factors::<Fp>(rows, cols, &a, names, via, Fp(2)) {
+        Err(k) => panic_str(k),
+        Ok(None) => "none".to_string(),
+        Ok(Some((q, r))) => format!(
+            "some qshape={} rshape={} ## Q={} R={}",
+            show_shape(&q.shape),
+            show_shape(&r.shape),
+            show_elems(&q.data),
+            show_elems(&r.data)
+        ),
+    }
+}
+
+// ---------------------------------------------------------------------------------------------
+// f64: implementation against the specification, with a tolerance (never against the model)
+// ---------------------------------------------------------------------------------------------
+
+fn f64_matrix(rng: &mut Rng, rows: usize, cols: usize) -> Vec<f64> {
+    (0..rows * cols).map(|_| (rng.below(2001) as f64 - 1000.0) / 500.0).collect()
+}
+
+/// deterministic inputs for the `f64` lines: `spd` = B·Bᵀ + c·I, `indef` = the same with one
+/// diagonal entry pushed far below zero, `semi` = B·Bᵀ of a rank-deficient integer B whose
+/// pivots are exact in binary floating point up to the vanishing one, `full` = random entries.
+pub fn f64_input(kind: &str, rows: usize, cols: usize, seed: u64) -> Vec<f64> {
+    let mut rng = Rng::new(seed);
+    let n = rows;
+    match kind {
+        "spd" | "indef" => {
+            let b = f64_matrix(&mut rng, n, n);
+            let c = 0.5 + rng.below(4) as f64;
+            let mut a = vec![0.0; n * n];
+            for i in 0..n {
+                for j in 0..n {
+                    let mut s = 0.0;
+                    for k in 0..n {
+                        s += b[i * n + k] * b[j * n + k];
+                    }
+                    a[i * n + j] = s + if i == j { c } else { 0.0 };
+                }
+            }
+            if kind == "indef" {
+                let at = rng.below(n);
+                a[at * n + at] = -1.0 - a[at * n + at];
+            }
+            a
+        }
+        "semi" => {
+            // first row duplicated: [[1,1],[1,1]]-like, pivot 1 is exactly 0
+            let mut a = vec![0.0; n * n];
+            for i in 0..n {
+                for j in 0..n {
+                    a[i * n + j] = if i == j { 4.0 } else { 0.0 };
+                }
+            }
+            if n >= 2 {
+                a[0] = 4.0;
+                a[1] = 4.0;
+                a[n] = 4.0;
+                a[n + 1] = 4.0;
+            } else {
+                a[0] = 0.0;
+            }
+            a
+        }
+        // zero at the reflected position of the first column, something non-zero below it
+        "zerolead" => {
+            let mut a = f64_matrix(&mut rng, rows, cols);
+            a[0] = 0.0;
+            if rows >= 2 && a[cols] == 0.0 {
+                a[cols] = 1.5;
+            }
+            a
+        }
+        // distinct unit vectors as columns (a permutation matrix when square): exact zeros at the
+        // reflected position of the first and of later columns
+        "perm" => {
+            let mut order: Vec<usize> = (0..rows).collect();
+            rng.shuffle(&mut order);
+            let mut a = vec![0.0; rows * cols];
+            for j in 0..cols {
+                a[order[j] * cols + j] = 1.0 + rng.below(3) as f64;
+            }
+            a
+        }
+        // the exchange matrix (ones on the anti-diagonal of the leading square block): [[0,1],[1,0]] …
+        "antidiag" => {
+            let mut a = vec![0.0; rows * cols];
+            for j in 0..cols {
+                a[(rows - 1 - j) * cols + j] = 1.0;
+            }
+            a
+        }
+        // the first `lead` columns are positive multiples of e_0 … e_{lead-1} (their reflections are
+        // exact sign flips), and the trailing block starts with an exact zero above non-zero entries:
+        // the zero sits at the reflected position of column `lead`
+        "stair" => {
+            let mut a = f64_matrix(&mut rng, rows, cols);
+            let lead = if cols >= 2 && rows >= 3 { 1 + rng.below((cols - 1).min(rows - 2)) } else { 0 };
+            for j in 0..lead {
+                for i in 0..rows {
+                    a[i * cols + j] = if i == j { 2.0 + j as f64 } else { 0.0 };
+                }
+            }
+            if lead < cols && lead < rows {
+                a[lead * cols + lead] = 0.0;
+                if lead + 1 < rows && a[(lead + 1) * cols + lead] == 0.0 {
+                    a[(lead + 1) * cols + lead] = -1.25;
+                }
+            }
+            a
+        }
+        _ => f64_matrix(&mut rng, rows, cols),
+    }
+}
+
+fn max_abs(v: &[f64]) -> f64 {
+    v.iter().fold(1.0, |m, x| m.max(x.abs()))
+}
+
+fn run_f64(alg: &str, rows: usize, cols: usize, kind: &str, seed: u64, via: &str) -> String {
+    let names = ["r", "c"];
+    let a = f64_input(kind, rows, cols, seed);
+    let tol = 1e-9 * max_abs(&a) * (rows.max(cols) as f64);
+    let close = |x: f64, y: f64| (x - y).abs() <= tol && x.is_finite();
+    match alg {
+        "chol" => {
+            let input = build_input(via, rows, cols, names, &a, 2.0);
+            let r = catch(|| {
+                dispatch!(input, via, names,
+                    |m| linear_algebra::cholesky_decomposition::<f64>(&m).map(|l| Grid::of_matrix(&l, names)),
+                    |t| linear_algebra::cholesky_decomposition_tensor::<f64, _, _>(t).map(|l| Grid::of_tensor(&l)))
+            });
+            match r {
+                Err(k) => panic_str(k),
+                Ok(None) => "none".into(),
+                Ok(Some(l)) => {
+                    let n = rows;
+                    let mut ident = true;
+                    for i in 0..n {
+                        for j in 0..n {
+                            let s: f64 = (0..n).map(|k| l.at(i, k) * l.at(j, k)).sum();
+                            ident &= close(s, a[i * n + j]);
+                        }
+                    }
+                    let lower = (0..n).all(|i| ((i + 1)..n).all(|j| l.at(i, j) == 0.0));
+                    let pos = (0..n).all(|i| l.at(i, i) > 0.0);
+                    format!("some lower={} posdiag={} ident={}", ok(lower), ok(pos), ok(ident))
+                }
+            }
+        }
+        "ldlt" => {
+            let input = build_input(via, rows, cols, names, &a, 2.0);
+            let r = catch(|| {
+                dispatch!(input, via, names,
+                    |m| linear_algebra::ldlt_decomposition::<f64>(&m)
+                        .map(|f| (Grid::of_matrix(&f.l, names), Grid::of_matrix(&f.d, names))),
+                    |t| linear_algebra::ldlt_decomposition_tensor::<f64, _, _>(t)
+                        .map(|f| (Grid::of_tensor(&f.l), Grid::of_tensor(&f.d))))
+            });
+            match r {
+                Err(k) => panic_str(k),
+                Ok(None) => "none".into(),
+                Ok(Some((l, d))) => {
+                    let n = rows;
+                    let mut ident = true;
+                    for i in 0..n {
+                        for j in 0..n {
+                            let s: f64 = (0..n).map(|k| l.at(i, k) * d.at(k, k) * l.at(j, k)).sum();
+                            ident &= close(s, a[i * n + j]);
+                        }
+                    }
+                    let unit = (0..n).all(|i| l.at(i, i) == 1.0 && ((i + 1)..n).all(|j| l.at(i, j) == 0.0));
+                    let diag = (0..n).all(|i| (0..n).all(|j| i == j || d.at(i, j) == 0.0));
+                    format!("some unitlower={} diag={} ident={}", ok(unit), ok(diag), ok(ident))
+                }
+            }
+        }
+        _ => match qr_factors::<f64>(rows, cols, &a, names, via, 2.0) {
+            Err(k) => panic_str(k),
+            Ok(None) => "none".into(),
+            Ok(Some((q, r))) => {
+                let (m, n) = (rows, cols);
+                let shapes = q.shape == [("r", m), ("c", m)] && r.shape == [("r", m), ("c", n)];
+                let mut product = true;
+                for i in 0..m {
+                    for j in 0..n {
+                        let s: f64 = (0..m).map(|k| q.at(i, k) * r.at(k, j)).sum();
+                        product &= close(s, a[i * n + j]);
+                    }
+                }
+                let mut orth = true;
+                for i in 0..m {
+                    for j in 0..m {
+                        let s: f64 = (0..m).map(|k| q.at(k, i) * q.at(k, j)).sum();
+                        orth &= (s - if i == j { 1.0 } else { 0.0 }).abs() <= 1e-9 * (m as f64) && s.is_finite();
+                    }
+                }
+                let mut upper = true;
+                for i in 0..m {
+                    for j in 0..n.min(i) {
+                        upper &= r.at(i, j).abs() <= tol;
+                    }
+                }
+                format!("some shapes={} product={} orthogonal={} upper={}", ok(shapes), ok(product), ok(orth), ok(upper))
+            }
+        },
+    }
+}
+
+// ---------------------------------------------------------------------------------------------
+// runner
+// ---------------------------------------------------------------------------------------------
 
 pub struct Runner;
 
@@ -11,7 +561,386 @@ impl Runner {
         Runner
     }
 
-    pub fn step(&mut self, _toks: &[&str]) -> String {
-        "unimplemented".into()
+    pub fn step(&mut self, toks: &[&str]) -> String {
+        if toks.len() < 6 || toks[0] != "@" {
+            return "bad-op".into();
+        }
+        let (alg, ty) = (toks[1], toks[2]);
+        let rows: usize = toks[3].parse().expect("rows");
+        let cols: usize = toks[4].parse().expect("cols");
+        let via = opt_arg("via", toks).unwrap_or("tensor");
+        if ty == "f64" {
+            let seed: u64 = toks[6].parse().expect("seed");
+            return run_f64(alg, rows, cols, toks[5], seed, via);
+        }
+        let names_v = parse_names(opt_arg("names", toks).unwrap_or("r,c"));
+        let names = [names_v[0], names_v[1]];
+        match (alg, ty) {
+            ("chol", "fp") => run_chol::<Fp>(rows, cols, parse_elems(toks[5]), names, via, false),
+            ("chol", "rat") => run_chol::<Rat>(rows, cols, parse_elems(toks[5]), names, via, true),
+            ("ldlt", "fp") => run_ldlt::<Fp>(rows, cols, parse_elems(toks[5]), names, via),
+            ("ldlt", "rat") => run_ldlt::<Rat>(rows, cols, parse_elems(toks[5]), names, via),
+            ("qr", "fp") => run_qr_fp(rows, cols, parse_elems(toks[5]), names, via),
+            _ => "bad-op".into(),
+        }
+    }
+}
+
+// ---------------------------------------------------------------------------------------------
+// generation
+// ---------------------------------------------------------------------------------------------
+
+const VIAS: [&str; 6] = ["matrix", "tensor", "owned", "tensor_view", "view", "range"];
+const NAME_PAIRS: [[&str; 2]; 6] =
+    [["r", "c"], ["a", "b"], ["row", "column"], ["column", "row"], ["y", "x"], ["c", "r"]];
+
+fn rand_fp(g: &mut Gen) -> Fp {
+    Fp::new(g.rng.next())
+}
+
+/// small signed integers as field elements (zero and sign edge cases)
+fn small_fp(g: &mut Gen) -> Fp {
+    Fp::from_i64(g.rng.below(7) as i64 - 3)
+}
+
+pub fn symmetrise<T: Clone>(n: usize, a: &mut [T]) {
+    for i in 0..n {
+        for j in 0..i {
+            a[j * n + i] = a[i * n + j].clone();
+        }
+    }
+}
+
+/// Reference Cholesky used **only to steer the generator** (which pivot a candidate input fails
+/// at; how to place an exactly-zero pivot).  Answers always come from easy-ml and the Lean model.
+/// Returns the factor computed so far and the index of the failing pivot, if any; `stop_at`
+/// returns the partial sum of that pivot instead.
+pub fn steer_chol<T>(n: usize, a: &[T], stop_at: Option<usize>) -> (Option<usize>, T)
+where
+    T: Numeric + Sqrt<Output = T>,
+    for<'a> &'a T: NumericRef<T>,
+{
+    let mut l = vec![T::zero(); n * n];
+    for i in 0..n {
+        for j in 0..=i {
+            let mut s = T::zero();
+            for k in 0..j {
+                s = s + l[i * n + k].clone() * l[j * n + k].clone();
+            }
+            if i == j {
+                if stop_at == Some(i) {
+                    return (None, s);
+                }
+                let e = a[i * n + i].clone() - s;
+                if e <= T::zero() {
+                    return (Some(i), T::zero());
+                }
+                l[i * n + i] = e.sqrt();
+            } else {
+                l[i * n + j] = (a[i * n + j].clone() - s) / l[j * n + j].clone();
+            }
+        }
+    }
+    (None, T::zero())
+}
+
+/// the partial sum Σ_{k<j} L[j,k]² D[k,k] of LDLᵀ at pivot `j` (generator steering only)
+fn steer_ldlt_sum<T>(n: usize, a: &[T], at: usize) -> T
+where
+    T: Numeric,
+    for<'a> &'a T: NumericRef<T>,
+{
+    let mut l = vec![T::zero(); n * n];
+    let mut d = vec![T::zero(); n];
+    for j in 0..n {
+        let mut s = T::zero();
+        for k in 0..j {
+            s = s + l[j * n + k].clone() * l[j * n + k].clone() * d[k].clone();
+        }
+        if j == at {
+            return s;
+        }
+        d[j] = a[j * n + j].clone() - s;
+        for i in j..n {
+            let mut s = T::zero();
+            for k in 0..j {
+                s = s + l[i * n + k].clone() * l[j * n + k].clone() * d[k].clone();
+            }
+            l[i * n + j] = if i == j { T::one() } else { (a[i * n + j].clone() - s) / d[j].clone() };
+        }
+    }
+    T::zero()
+}
+
+fn emit<T: Display>(g: &mut Gen, alg: &str, ty: &str, rows: usize, cols: usize, a: &[T], all_vias: bool) {
+    let vias: Vec<&str> = if all_vias {
+        VIAS.to_vec()
+    } else {
+        vec!["matrix", *g.rng.pick(&VIAS[1..])]
+    };
+    for via in vias {
+        let names = if via == "matrix" { NAME_PAIRS[0] } else { *g.rng.pick(&NAME_PAIRS) };
+        g.op(format!(
+            "@ {} {} {} {} {} names={},{} via={}",
+            alg, ty, rows, cols, show_elems(a), names[0], names[1], via
+        ));
+        g.count(&format!("{}.{}.via={}", alg, ty, via));
+    }
+    g.count(&format!("{}.{}.size={}x{}", alg, ty, rows, cols));
+}
+
+fn rat_small(g: &mut Gen) -> Rat {
+    let d = *g.rng.pick(&[1i128, 1, 1, 2, 3]);
+    Rat::new(g.rng.below(9) as i128 - 4, d)
+}
+
+fn rat_pos(g: &mut Gen) -> Rat {
+    let d = *g.rng.pick(&[1i128, 1, 2, 3]);
+    Rat::new(g.rng.below(5) as i128 + 1, d)
+}
+
+/// L·Lᵀ for a lower-triangular rational L with positive diagonal (every pivot is then the square
+/// of a diagonal entry of L, so `Rat::sqrt` is exact)
+fn rat_llt(g: &mut Gen, n: usize) -> (Vec<Rat>, Vec<Rat>) {
+    let mut l = vec![Rat::int(0); n * n];
+    for i in 0..n {
+        for j in 0..i {
+            l[i * n + j] = rat_small(g);
+        }
+        l[i * n + i] = rat_pos(g);
+    }
+    let mut a = vec![Rat::int(0); n * n];
+    for i in 0..n {
+        for j in 0..n {
+            let mut s = Rat::int(0);
+            for k in 0..n {
+                s = s + l[i * n + k].clone() * l[j * n + k].clone();
+            }
+            a[i * n + j] = s;
+        }
+    }
+    (l, a)
+}
+
+/// B·Bᵀ + c·I with small integer B
+fn rat_bbt(g: &mut Gen, n: usize, c: i64) -> Vec<Rat> {
+    let b: Vec<Rat> = (0..n * n).map(|_| Rat::int(g.rng.below(7) as i64 - 3)).collect();
+    let mut a = vec![Rat::int(0); n * n];
+    for i in 0..n {
+        for j in 0..n {
+            let mut s = Rat::int(0);
+            for k in 0..n {
+                s = s + b[i * n + k].clone() * b[j * n + k].clone();
+            }
+            a[i * n + j] = if i == j { s + Rat::int(c) } else { s };
+        }
+    }
+    a
+}
+
+pub fn gen(g: &mut Gen) {
+    let max_n = if g.thorough { 8 } else { 4 };
+    let max_rat = if g.thorough { 6 } else { 4 };
+    let reps = if g.thorough { 120 } else { 32 };
+
+    // ---- Cholesky over Fp: all pivot paths ---------------------------------------------------
+    for n in 1..=max_n {
+        // for every pivot position p (and "none fails"): a random symmetric matrix that fails
+        // exactly there, found by rejection with the steering reference
+        for target in 0..=n {
+            for _ in 0..(reps / 4).max(2) {
+                let mut tries = 0;
+                loop {
+                    let mut a: Vec<Fp> = (0..n * n).map(|_| rand_fp(g)).collect();
+                    symmetrise(n, &mut a);
+                    let (fail, _) = steer_chol::<Fp>(n, &a, None);
+                    tries += 1;
+                    if fail == (if target == n { None } else { Some(target) }) || tries > 4000 {
+                        g.count(&format!("chol.fp.pivot-path={}", match fail { None => "all-positive".to_string(), Some(p) => format!("fails-at-{}", p) }));
+                        emit(g, "chol", "fp", n, n, &a, true);
+                        break;
+                    }
+                }
+            }
+        }
+        // an exactly-zero pivot at each position (the `<=` boundary)
+        for at in 0..n {
+            let mut tries = 0;
+            loop {
+                let mut a: Vec<Fp> = (0..n * n).map(|_| rand_fp(g)).collect();
+                symmetrise(n, &mut a);
+                let (_, s) = steer_chol::<Fp>(n, &a, Some(at));
+                a[at * n + at] = s;
+                let (fail, _) = steer_chol::<Fp>(n, &a, None);
+                tries += 1;
+                if fail == Some(at) || tries > 4000 {
+                    g.count("chol.fp.zero-pivot");
+                    emit(g, "chol", "fp", n, n, &a, false);
+                    break;
+                }
+            }
+        }
+        // asymmetric and small-integer inputs
+        for _ in 0..reps / 2 {
+            let a: Vec<Fp> = (0..n * n).map(|_| rand_fp(g)).collect();
+            g.count("chol.fp.asymmetric");
+            emit(g, "chol", "fp", n, n, &a, false);
+            let a: Vec<Fp> = (0..n * n).map(|_| small_fp(g)).collect();
+            g.count("chol.fp.small-integers");
+            emit(g, "chol", "fp", n, n, &a, false);
+        }
+    }
+
+    // ---- LDLᵀ over Fp ------------------------------------------------------------------------
+    for n in 1..=max_n {
+        for _ in 0..reps {
+            let mut a: Vec<Fp> = (0..n * n).map(|_| rand_fp(g)).collect();
+            symmetrise(n, &mut a);
+            g.count("ldlt.fp.symmetric");
+            emit(g, "ldlt", "fp", n, n, &a, true);
+        }
+        for at in 0..n {
+            for _ in 0..2 {
+                let mut a: Vec<Fp> = (0..n * n).map(|_| rand_fp(g)).collect();
+                symmetrise(n, &mut a);
+                a[at * n + at] = steer_ldlt_sum::<Fp>(n, &a, at);
+                g.count(&format!("ldlt.fp.zero-pivot-at={}", at));
+                emit(g, "ldlt", "fp", n, n, &a, false);
+            }
+        }
+        for _ in 0..reps / 2 {
+            let a: Vec<Fp> = (0..n * n).map(|_| rand_fp(g)).collect();
+            g.count("ldlt.fp.asymmetric");
+            emit(g, "ldlt", "fp", n, n, &a, false);
+            let mut a: Vec<Fp> = (0..n * n).map(|_| small_fp(g)).collect();
+            symmetrise(n, &mut a);
+            g.count("ldlt.fp.small-integers");
+            emit(g, "ldlt", "fp", n, n, &a, false);
+        }
+    }
+
+    // ---- non-square inputs (Cholesky, LDLᵀ) and every QR shape --------------------------------
+    let max_q = if g.thorough { 8 } else { 5 };
+    for rows in 1..=max_q {
+        for cols in 1..=max_q {
+            if rows != cols && rows <= max_n + 1 && cols <= max_n + 1 {
+                let a: Vec<Fp> = (0..rows * cols).map(|_| rand_fp(g)).collect();
+                g.count("chol.fp.non-square");
+                emit(g, "chol", "fp", rows, cols, &a, true);
+                g.count("ldlt.fp.non-square");
+                emit(g, "ldlt", "fp", rows, cols, &a, true);
+                let a: Vec<Rat> = (0..rows * cols).map(|_| rat_small(g)).collect();
+                g.count("chol.rat.non-square");
+                emit(g, "chol", "rat", rows, cols, &a, false);
+                g.count("ldlt.rat.non-square");
+                emit(g, "ldlt", "rat", rows, cols, &a, false);
+            }
+            let wide = cols > rows;
+            let n_random = if wide { 1 } else { (reps / 2).max(4) };
+            for k in 0..n_random {
+                let a: Vec<Fp> = (0..rows * cols).map(|_| rand_fp(g)).collect();
+                g.count(if wide { "qr.fp.wide" } else { "qr.fp.tall-or-square" });
+                emit(g, "qr", "fp", rows, cols, &a, k == 0);
+            }
+            if !wide {
+                // small integers: zero leading entries take the `sign > 0` = false branch with
+                // a zero, whole zero columns make the reflection degenerate
+                for _ in 0..(reps / 4).max(2) {
+                    let a: Vec<Fp> = (0..rows * cols).map(|_| small_fp(g)).collect();
+                    g.count("qr.fp.small-integers");
+                    emit(g, "qr", "fp", rows, cols, &a, false);
+                }
+            }
+        }
+    }
+
+    // ---- exact rationals ------------------------------------------------------------------------
+    for n in 1..=max_rat {
+        for _ in 0..reps {
+            // Cholesky of L·Lᵀ returns L itself
+            let (_l, a) = rat_llt(g, n);
+            g.count("chol.rat.LLt");
+            emit(g, "chol", "rat", n, n, &a, false);
+            g.count("ldlt.rat.LLt");
+            emit(g, "ldlt", "rat", n, n, &a, false);
+            // semidefinite / indefinite: pivot `at` made exactly zero / negative
+            let at = g.rng.below(n);
+            let (l, mut a2) = rat_llt(g, n);
+            let ljj = l[at * n + at].clone();
+            let drop = if g.rng.chance(1, 2) {
+                g.count("chol.rat.zero-pivot");
+                ljj.clone() * ljj
+            } else {
+                g.count("chol.rat.negative-pivot");
+                ljj.clone() * ljj + rat_pos(g)
+            };
+            a2[at * n + at] = a2[at * n + at].clone() - drop;
+            emit(g, "chol", "rat", n, n, &a2, false);
+            g.count("ldlt.rat.indefinite-or-semidefinite");
+            emit(g, "ldlt", "rat", n, n, &a2, false);
+            // asymmetric: the strict upper triangle of an L·Lᵀ perturbed
+            if n >= 2 {
+                let (_l, mut a3) = rat_llt(g, n);
+                let (i, j) = (g.rng.below(n - 1), n - 1);
+                a3[i * n + j] = a3[i * n + j].clone() + rat_pos(g);
+                g.count("chol.rat.asymmetric");
+                emit(g, "chol", "rat", n, n, &a3, false);
+                g.count("ldlt.rat.asymmetric");
+                emit(g, "ldlt", "rat", n, n, &a3, false);
+            }
+            // LDLᵀ on B·Bᵀ + cI, on plain symmetric integer matrices and on constructed zero pivots
+            let c = g.rng.range(1, 3) as i64;
+            let a = rat_bbt(g, n, c);
+            g.count("ldlt.rat.BBt+cI");
+            emit(g, "ldlt", "rat", n, n, &a, false);
+            let mut a: Vec<Rat> = (0..n * n).map(|_| rat_small(g)).collect();
+            symmetrise(n, &mut a);
+            g.count("ldlt.rat.symmetric-any");
+            emit(g, "ldlt", "rat", n, n, &a, false);
+            let at = g.rng.below(n);
+            let mut a = rat_bbt(g, n, c);
+            a[at * n + at] = steer_ldlt_sum::<Rat>(n, &a, at);
+            g.count(&format!("ldlt.rat.zero-pivot-at={}", at));
+            emit(g, "ldlt", "rat", n, n, &a, false);
+        }
+    }
+
+    // ---- f64 sanity oracle: implementation against the defining identities ------------------------
+    let max_f = 8;
+    let f_reps = if g.thorough { 12 } else { 4 };
+    for n in 1..=max_f {
+        for _ in 0..f_reps {
+            for kind in ["spd", "indef", "semi"] {
+                for alg in ["chol", "ldlt"] {
+                    if alg == "ldlt" && kind == "indef" {
+                        continue; // LDLᵀ accepts indefinite inputs; exactness is covered in Rat/Fp
+                    }
+                    let seed = g.rng.next() % 1_000_000_007;
+                    let via = *g.rng.pick(&VIAS);
+                    g.op(format!("@ {} f64 {} {} {} {} via={}", alg, n, n, kind, seed, via));
+                    g.count(&format!("{}.f64.{}", alg, kind));
+                }
+            }
+        }
+    }
+    for rows in 1..=max_f {
+        for cols in 1..=max_f {
+            let r = if cols > rows { 1 } else { f_reps };
+            for _ in 0..r {
+                let seed = g.rng.next() % 1_000_000_007;
+                let via = *g.rng.pick(&VIAS);
+                g.op(format!("@ qr f64 {} {} full {} via={}", rows, cols, seed, via));
+                g.count(if cols > rows { "qr.f64.wide" } else { "qr.f64.full-rank" });
+                if cols <= rows && rows >= 2 {
+                    // an exact zero at the reflected position with something non-zero below it
+                    for kind in ["zerolead", "perm", "antidiag", "stair"] {
+                        let seed = g.rng.next() % 1_000_000_007;
+                        let via = *g.rng.pick(&VIAS);
+                        g.op(format!("@ qr f64 {} {} {} {} via={}", rows, cols, kind, seed, via));
+                        g.count(&format!("qr.f64.zero-at-reflected-position.{}", kind));
+                    }
+                }
+            }
+        }
     }
 }
